@@ -376,6 +376,10 @@ func Gate(fn *ssa.Function, g Guard, success SuccessFn) GateResult {
 		for _, sp := range success(r, reach, removed) {
 			// `return helper(...)`: the guard may be passed inside the helper
 			if sp.FromCall != nil {
+				// `return x, guard(...)`: the error returned is the guard's own verdict
+				if g.TailCall != nil && g.TailCall(sp.FromCall) {
+					continue
+				}
 				if cc, isCall := sp.FromCall.(*ssa.Call); isCall {
 					if h := Followable(cc, nil); h != nil && (g.SkipHelper == nil || !g.SkipHelper(h)) && helperImplies(h, g, false) {
 						res.TailSites++
